@@ -1,31 +1,48 @@
 """C15 - IDL and PFC demultiplexers deliver the sent data in order and flag loss.
-spec/IdlA.tla: sender continuity counter, channel faults (drop, CRC damage, Hamming double error, foreign traffic), reference
-  receiver (payload of every intact packet of the selected address, DATA_LOST exactly on the first delivery after a loss).
+spec/IdlA.tla: services sending format A packets (all format types incl. RI/CI/DL bytes, address lengths, payloads with runs of
+  0x00/0xFF and the dummy bytes of EN 300 708 6.5.7.1 marked by the sender), a channel with a fault alphabet at UNIT granularity
+  (drop, CRC damage, every Hamming 8/4 protected byte hit once = corrected / twice = unreadable, on packets of the selected
+  service and of adversarially chosen neighbour addresses / channels), reference receiver (payload of every intact packet of the
+  selected address, DATA_LOST exactly on the first delivery after a loss, nothing from other addresses).
 spec/Pfc.tla: sender that packs blocks (separator, structure header, data, fillers) into packets and pages for every alignment,
-  channel faults, reference receiver.
-GEN -> REPLAY on vbi_idl_demux_feed / vbi_pfc_demux_feed with real Hamming/CRC coded packets built by the check (lib/vlib/ttx.py)."""
-import json, os, random
+  foreign pages / streams carrying blocks of their own, the same unit fault alphabet (header: magazine/packet, page number,
+  subcode S1-S4, control bytes; packet: block pointer, separators, fillers, structure header nibbles), reference receiver with the
+  two policies the statement leaves open for unreadable bytes.
+GEN -> REPLAY on vbi_idl_demux_feed / vbi_pfc_demux_feed with real Hamming/CRC coded packets built by the check (lib/vlib/ttx.py);
+  err1 / err2 are placed on concrete bits (all 8 single bit positions, the 28 bit pairs) of the unit the specification names."""
+import json, os, random, itertools, collections, threading
 from vlib import tlc, build, core, ttx
 
 MANIFEST = dict(
     level="model_checking",
     engine="tlc-mc+replay",
-    technique="TLA+ specs IdlA and Pfc (sender, faulty channel, reference receiver) checked exhaustively by TLC; every generated packet "
-              "sequence is encoded with real Hamming 8/4 / CRC / block structure and replayed on vbi_idl_demux_feed and vbi_pfc_demux_feed, "
-              "callback arguments compared after every packet",
-    text="IDL format A: TLC explores all sequences of packets of the selected address (4 header formats, address lengths 0/3/6, data "
-         "lengths 0/1/30, continuity counter incl. wrap-around) mixed with dropped, CRC-damaged, Hamming-damaged and foreign packets and checks "
-         "that DATA_LOST is raised exactly on the first delivery after a loss. PFC: TLC explores every alignment of block separators, "
-         "structure headers, data and fillers relative to packet and page ends for scaled packets, with single packet drops and damaged "
-         "block pointers, and checks that the reference receiver returns the sent blocks and, after damage, only sent blocks. All "
-         "behaviours are replayed on the real demultiplexers with real coding (seeded payload bytes incl. 0x00/0xFF runs with dummy bytes).",
-    note="Bounded: IDL <= 5 packets per behaviour, PFC <= 4 blocks with scaled packets in MC and real 39-byte packets in replay. IDL repeat "
-         "indicator (RI) packets and the dummy-byte rule at the CI/DL boundary are not covered (the standard text is not available offline; "
-         "dummy bytes are exercised only inside user data). Empty PFC blocks are accepted either way (pfc_demux.h documents sizes 1..2048).",
+    technique="TLA+ specs IdlA and Pfc (sender, channel with a unit-granular fault alphabet, reference receiver) checked exhaustively by "
+              "TLC; every generated packet sequence is encoded with real Hamming 8/4 / CRC / block structure, the faults are placed on "
+              "concrete bits, and replayed on vbi_idl_demux_feed and vbi_pfc_demux_feed, callback arguments compared after every packet",
+    text="IDL format A: TLC explores all sequences of packets of the selected service (8 format types with RI/CI/DL bytes, address "
+         "lengths 0/2/3/6, continuity counter incl. wrap-around) mixed with dropped and CRC-damaged packets, loss bursts, ordinary "
+         "Teletext packets and packets of neighbour addresses and channels, and checks that DATA_LOST is raised exactly on the first "
+         "delivery after a loss and that nothing of another address is delivered. Every Hamming 8/4 protected byte (channel, "
+         "designation, format type, address length, each address nibble) of own and neighbour packets is hit with one bit (must be "
+         "corrected) and two bits (packet never delivered, loss flagged). Payloads contain runs of 7..30 bytes 0x00/0xFF at every "
+         "position; the specification marks the dummy bytes and proves that the receiver rule gives back the user data. PFC: TLC "
+         "explores every alignment of block separators, structure headers, data and fillers relative to packet and page ends for "
+         "scaled packets, dropped items, foreign pages and streams with their own blocks, one-bit and two-bit hits on every Hamming "
+         "protected byte of headers (page number, subcode, control bytes) and packets (block pointer, separator, filler, structure "
+         "header), and checks that the reference receiver returns the sent blocks and, after damage, only sent blocks and resumes. "
+         "All behaviours are replayed on the real demultiplexers with real coding; single bit positions and bit pairs are enumerated.",
+    note="Bounded: IDL <= 5 packets per behaviour in MC and 3 in replay, PFC <= 4 blocks with scaled packets in MC and <= 3 blocks in real "
+         "39-byte packets in replay, one fault per PFC transmission. The IDL repeat indicator byte is present with value 0 only "
+         "(repetitions are not modelled). EN 300 708 is not available offline: packets in which an RI/CI byte equal to 0x00/0xFF "
+         "directly precedes user data starting with the same value are not sent (whether they form one run is left open); DL counts "
+         "the dummy bytes. Where the statement leaves the reaction to an unreadable byte open (PFC control bytes, unused subcode "
+         "bytes, bytes the decoder need not read) both a strict and a lenient reference outcome are accepted. Empty PFC blocks are "
+         "accepted either way (pfc_demux.h documents sizes 1..2048).",
 )
 
-CHANNEL, ADDRESS = 8, 0x2A5          # packet 31 of magazine 8 ... any; address needs <= 3 nibbles for spalen 3
-FT = {"ci": 4, "ci+dl": 12, "impl": 0, "impl+dl": 8}
+WORKERS = 8
+FT_RI, FT_CI, FT_DL = 2, 4, 8
+PAIRS = list(itertools.combinations(range(8), 2))       # the 28 two-bit errors of a byte
 
 _T = [ttx.crc_idl_a([i]) for i in range(256)]
 _HI = {t >> 8: i for i, t in enumerate(_T)}
@@ -44,138 +61,189 @@ def crc_tail(body, target):
     return [x, y]
 
 
-def idl_packet(rnd, act, address=ADDRESS, channel=CHANNEL):
-    """-> (42 bytes, user data bytes)"""
-    fmt, spalen, n = act["fmt"], act["spalen"], act["n"]
-    has_ci, has_dl = fmt in ("ci", "ci+dl"), fmt in ("ci+dl", "impl+dl")
-    cap = 36 - spalen - (1 if has_ci else 0) - (1 if has_dl else 0)
-    addr = address & ((1 << (4 * spalen)) - 1) if spalen else 0
-    pkt = [ttx.ham8(channel), ttx.ham8(15), ttx.ham8(FT[fmt]), ttx.ham8(spalen | (8 if act["dep"] else 0))]
-    pkt += [ttx.ham8((addr >> (4 * i)) & 15) for i in range(spalen)]
-    body = []
-    if has_ci:
-        body.append(act["ci"])
-    # user data with dummy bytes after 8 equal 0x00 / 0xFF bytes (runs start behind an ordinary byte)
-    want = min(n, cap) if has_dl else cap
-    user, wire = [], []
-    while len(user) < want and len(wire) < cap:
-        room = cap - len(wire)
-        if rnd.random() < 0.15 and room >= 11 and want - len(user) >= 9:
-            v = rnd.choice([0x00, 0xFF])
-            run = rnd.choice([8, 8, 9])
-            seq = [rnd.randrange(1, 255)] + [v] * run
-            w = list(seq[:9]) + [0xAA] + seq[9:]
-            user += seq; wire += w
-        else:
-            b = rnd.randrange(1, 255)
-            user.append(b); wire.append(b)
-    if not has_dl:
-        assert len(wire) == cap
-    if has_dl:
-        body.append(len(wire))
-        wire = wire + [rnd.randrange(256) for _ in range(cap - len(wire))]
-    body += wire
-    target = 0 if has_ci else (act["ci"] | (act["ci"] << 8))
+def flip(pk, idx, bits):
+    for b in bits:
+        pk[idx] ^= 1 << b
+
+
+class Placer:
+    """concrete bit positions for the err1 / err2 faults of the specification: every behaviour gets `per` placements (quick 2,
+    thorough all 8 single bits / 7 of the 28 pairs), the placements rotate per unit class so that all 8 single bits and all
+    28 pairs are used in every class"""
+
+    def __init__(self, quick, rnd):
+        self.quick, self.rnd = quick, rnd
+        self.count = collections.Counter()
+        self.used = collections.defaultdict(set)
+
+    def variants(self, cls, kind):
+        space = [(b,) for b in range(8)] if kind == "err1" else PAIRS
+        per = 2 if self.quick else 8 if kind == "err1" else 7
+        c = self.count[(cls, kind)]
+        self.count[(cls, kind)] += 1
+        v = [space[(per * c + j) % len(space)] for j in range(per)]
+        self.used[(cls, kind)].update(v)
+        return v
+
+    def one(self, cls, kind):
+        space = [(b,) for b in range(8)] if kind == "err1" else PAIRS
+        v = self.rnd.choice(space)
+        self.used[(cls, kind)].add(v)
+        return v
+
+    def report(self):
+        return {"%s:%s" % (c, k): len(v) for (c, k), v in sorted(self.used.items())}
+
+
+# ------------------------------------------------------------------------------------------------ IDL format A
+def idl_packet(rnd, perm, st):
+    """one step of an IdlA behaviour -> (42 bytes as sent, index of the first CRC protected byte, indices of the CI/DL bytes)"""
+    a = st["act"]
+    it = a["it"]
+    fmt, spalen = it["fmt"], it["spalen"]
+    pkt = [ttx.ham8(it["dest"]["chan"]), ttx.ham8(15), ttx.ham8(fmt), ttx.ham8(spalen | (8 if it["dep"] else 0))]
+    pkt += [ttx.ham8((it["dest"]["addr"] >> (4 * i)) & 15) for i in range(spalen)]
+    if fmt & FT_RI:
+        pkt.append(0)               # not repeated
+    start = len(pkt)
+    body, head = [], []
+    if fmt & FT_CI:
+        head.append(start + len(body)); body.append(a["ci"])
+    wire = [0xAA if x == 300 else perm[x] for x in st["wire"]]
+    if fmt & FT_DL:
+        head.append(start + len(body)); body.append(len(wire))
+    room = 40 - start - len(body)
+    assert len(wire) <= room and (fmt & FT_DL or len(wire) == room), (len(wire), room, it)
+    body += wire + [rnd.randrange(256) for _ in range(room - len(wire))]       # behind the data length: anything
+    target = 0 if fmt & FT_CI else (a["ci"] | (a["ci"] << 8))
     pkt += body + crc_tail(body, target)
     assert len(pkt) == 42, len(pkt)
-    return pkt, user
+    return pkt, start, head
 
 
-def damage2(b):
-    return b ^ 0x05        # two bit errors in one Hamming 8/4 byte
+IDL_UNIT = dict(chan=0, desig=1, ft=2, ial=3)
 
 
-def compile_idl(rnd, beh):
-    lines, exp = [], []
-    for st in beh:
-        a = st["act"]
-        if a["a"] == "Send":
-            pkt, user = idl_packet(rnd, a)
-            if a["how"] == "drop":
+def compile_idl(rnd, beh, placer):
+    """-> list of (lines, [expected], reset, tag): one entry per concrete placement of the behaviour's unit fault"""
+    perm = list(range(1, 255)); rnd.shuffle(perm); perm = [0] + perm + [255]
+    # the unit fault that is enumerated (mode "unit": the second packet); other faults get one random placement
+    enum_at, variants = None, [()]
+    if beh["mode"] == "unit":
+        f = beh["steps"][1]["act"]["it"]["flt"]
+        if f["u"] in ("chan", "desig", "ft", "ial", "spa"):
+            own = beh["steps"][1]["act"]["own"]
+            enum_at, variants = 1, placer.variants("idl:%s:%s" % ("own" if own else "other", f["u"]), f["k"])
+    res = []
+    for var in variants:
+        lines, exp = [], []
+        for n, st in enumerate(beh["steps"]):
+            a = st["act"]
+            if a["a"] == "Burst":
+                continue          # k packets of the selected service are lost: nothing arrives, the sender's counter went on
+            if a["a"] == "Other":
+                pkt = ttx.mrag(rnd.randrange(1, 9), rnd.randrange(0, 30)) + [ttx.par8(rnd.randrange(0x20, 0x7F)) for _ in range(40)]
+                lines.append("F " + ttx.hexpk(pkt)); exp.append([])
                 continue
-            if a["how"] == "crc":
+            it = a["it"]
+            f = it["flt"]
+            if f["u"] == "drop":
+                continue
+            pkt, start, head = idl_packet(rnd, perm, st)
+            if f["u"] == "crc":
                 # damage that really fails the check of this format (with the continuity indicator hidden in the
                 # CRC any remainder with two equal bytes is a legal packet: 8 effective check bits)
+                zone = head if (f["k"] == "head" and head) else [40, 41] if f["k"] == "check" else list(range(start + len(head), 40))
                 while True:
                     q = list(pkt)
-                    k = rnd.randrange(4 + a["spalen"], 42)
-                    q[k] ^= 1 << rnd.randrange(8)
-                    rem = ttx.crc_idl_a(q[4 + a["spalen"]:])
-                    if (rem != 0) if a["fmt"] in ("ci", "ci+dl") else ((rem & 0xFF) != (rem >> 8)):
+                    q[rnd.choice(zone)] ^= 1 << rnd.randrange(8)
+                    rem = ttx.crc_idl_a(q[start:])
+                    if (rem != 0) if it["fmt"] & FT_CI else ((rem & 0xFF) != (rem >> 8)):
                         pkt = q
                         break
-            if a["how"] == "ham":
-                k = 3 if a["spalen"] == 0 or rnd.random() < 0.5 else 4 + rnd.randrange(a["spalen"])
-                pkt[k] = damage2(pkt[k])
-            lines.append("F " + "".join("%02x" % b for b in pkt))
-            exp.append([dict(n=len(user), flags=(1 if o["lost"] else 0) | (8 if o["dep"] else 0), bytes=user) for o in st["out"]])
-        elif a["a"] == "Burst":
-            continue          # k packets of the selected address are lost: nothing arrives, the sender's counter went on
-        else:
-            k = a["kind"]
-            if k == "addr":
-                b = dict(a="Send", how="ok", n=5, fmt="ci+dl", spalen=rnd.choice([0, 3]), dep=False, ci=rnd.randrange(256))
-                pkt, _ = idl_packet(rnd, b, address=ADDRESS ^ 0x111)      # no address nibbles = address 0
-            elif k == "chan":
-                b = dict(a="Send", how="ok", n=5, fmt="ci+dl", spalen=3, dep=False, ci=rnd.randrange(256))
-                pkt, _ = idl_packet(rnd, b, channel=CHANNEL ^ 3)
-            else:
-                pkt = ttx.mrag(1, 5) + [ttx.par8(rnd.randrange(0x20, 0x7F)) for _ in range(40)]
-            lines.append("F " + "".join("%02x" % b for b in pkt))
-            exp.append([])
-    return lines, exp
+            elif f["u"] != "none":
+                idx = 4 + f["i"] if f["u"] == "spa" else IDL_UNIT[f["u"]]
+                flip(pkt, idx, var if n == enum_at else placer.one("idl:cont:" + f["u"], f["k"]))
+            lines.append("F " + ttx.hexpk(pkt))
+            exp.append([dict(n=len(o["bytes"]), flags=(1 if o["lost"] else 0) | (8 if o["dep"] else 0), bytes=[perm[x] for x in o["bytes"]])
+                        for o in st["out"]])
+        res.append((lines, [exp], "R idl %x %d" % (beh["lst"]["chan"], beh["lst"]["addr"]), "idl:" + beh["mode"]))
+    return res
 
 
-
+# ------------------------------------------------------------------------------------------------ Page Format - Clear
 PFC_PGNO, PFC_STREAM = 0x1DF, 5
+PFC_HDR_UNIT = dict(mrag0=0, mrag1=1, pgu=2, pgt=3, s1=4, s2=5, s3=6, s4=7, c1=8, c2=9)
 
 
-def pfc_packets(rnd, tr):
-    """TLC transmission -> driver lines and expected deliveries (seeded byte substitution on data values)"""
+def pfc_unit_class(tr):
+    f = tr["fault"]
+    it = tr["items"][f["at"] - 1]
+    if f["u"] == "el":
+        x = it["data"][f["i"] - 1]
+        return "pfc:P:" + ("bs" if x == 300 else "fill" if x == 301 else "sh")
+    return "pfc:%s:%s" % (it["t"], f["u"])
+
+
+def pfc_packets(rnd, tr, alts, bits):
+    """TLC transmission -> driver lines and the expected deliveries of every accepted policy (seeded byte substitution on
+    data values); bits: the bit positions inverted in the unit the fault names"""
     perm = list(range(256)); rnd.shuffle(perm)
     mag = PFC_PGNO >> 8
+    om = (mag % 8) + 1
 
     def el(x):
         if x == 300: return ttx.ham8(0x0C)
         if x == 301: return ttx.ham8(0x03)
         if x >= 400: return ttx.ham8(x - 400)
         return perm[x]
-    lines, exp = [], []
+
+    def hdr(m, pg, s1, npk, stream):
+        return ttx.mrag(m, 0) + [ttx.ham8(pg & 15), ttx.ham8((pg >> 4) & 15), ttx.ham8(s1), ttx.ham8(npk & 7), ttx.ham8(stream),
+                                 ttx.ham8((npk >> 3) & 3), ttx.ham8(rnd.randrange(16)), ttx.ham8(rnd.randrange(16))] + [ttx.par8(0x20)] * 32
+    lines, src = [], []
     fault = tr["fault"]
-    for n, (it, out) in enumerate(zip(tr["items"], tr["outs"])):
+    for n, it in enumerate(tr["items"]):
         if rnd.random() < 0.2:          # unrelated Teletext traffic: another magazine, a row of another page's magazine
-            om = (mag % 8) + 1
             pn = rnd.randrange(0, 26)
             if pn == 0:   # a valid page header of another magazine
                 junk = ttx.mrag(om, 0) + [ttx.ham8(rnd.randrange(10)), ttx.ham8(rnd.randrange(10))] + \
                     [ttx.ham8(rnd.randrange(16)) for _ in range(6)] + [ttx.par8(rnd.randrange(0x20, 0x7F)) for _ in range(32)]
             else:
                 junk = ttx.mrag(om, pn) + [rnd.randrange(256) for _ in range(40)]
-            lines.append("F " + "".join("%02x" % b for b in junk)); exp.append([])
+            lines.append("F " + ttx.hexpk(junk)); src.append(None)
         if fault["k"] == "drop" and fault["at"] == n + 1:
             continue
         if it["t"] == "H":
-            ci, np_ = it["ci"], it["n"]
-            pk = ttx.mrag(mag, 0) + [ttx.ham8(PFC_PGNO & 15), ttx.ham8((PFC_PGNO >> 4) & 15), ttx.ham8(ci),
-                                     ttx.ham8(np_ & 7), ttx.ham8(PFC_STREAM), ttx.ham8((np_ >> 3) & 3),
-                                     ttx.ham8(0), ttx.ham8(0)] + [ttx.par8(0x20)] * 32
-        elif it["t"] in ("X", "S", "M"):
-            # headers that are not for us: another page of our magazine / our page with another stream / another magazine
-            pg = (PFC_PGNO ^ 0x01) if it["t"] == "X" else PFC_PGNO
-            m = (mag % 8) + 1 if it["t"] == "M" else mag
-            st = PFC_STREAM ^ 1 if it["t"] == "S" else PFC_STREAM
-            pk = ttx.mrag(m, 0) + [ttx.ham8(pg & 15), ttx.ham8((pg >> 4) & 15), ttx.ham8(rnd.randrange(16)),
-                                   ttx.ham8(rnd.randrange(1, 8)), ttx.ham8(st), ttx.ham8(0),
-                                   ttx.ham8(0), ttx.ham8(0)] + [ttx.par8(0x20)] * 32
+            pk = hdr(mag, PFC_PGNO, it["ci"], it["n"], PFC_STREAM)
+        elif it["t"] == "X":        # another page of our magazine (the page number after ours: the carry reaches the tens)
+            pk = hdr(mag, (PFC_PGNO + 1) & 0xFF, rnd.randrange(16), 1, PFC_STREAM)
+        elif it["t"] == "S":        # our page with the next stream number
+            pk = hdr(mag, PFC_PGNO, rnd.randrange(16), 1, PFC_STREAM + 1)
+        elif it["t"] == "M":        # another magazine, same page number and stream
+            pk = hdr(om, PFC_PGNO, rnd.randrange(16), rnd.randrange(1, 8), PFC_STREAM)
         else:
-            bp = ttx.ham8(it["bp"])
-            if fault["k"] == "badbp" and fault["at"] == n + 1:
-                bp ^= 0x05
-            pk = ttx.mrag(mag, it["no"]) + [bp] + [el(x) for x in it["data"]]
+            pk = ttx.mrag(mag, it["no"]) + [ttx.ham8(it["bp"])] + [el(x) for x in it["data"]]
         assert len(pk) == 42
-        lines.append("F " + "".join("%02x" % b for b in pk))
-        exp.append([dict(app=o["app"], size=o["size"], bytes=[perm[x] for x in o["bytes"]]) for o in out])
-    return lines, exp
+        if fault["k"] in ("err1", "err2") and fault["at"] == n + 1:
+            idx = 2 + fault["i"] if fault["u"] == "el" else 2 if fault["u"] == "bp" else PFC_HDR_UNIT[fault["u"]]
+            assert len(bits) == (1 if fault["k"] == "err1" else 2)
+            flip(pk, idx, bits)
+        lines.append("F " + ttx.hexpk(pk)); src.append(n)
+    exps = [[[] if n is None else [dict(app=o["app"], size=o["size"], bytes=[perm[x] for x in o["bytes"]]) for o in outs[n]] for n in src]
+            for outs in alts]
+    return lines, exps
+
+
+def compile_pfc(rnd, tr, placer):
+    f = tr["fault"]
+    alts = [a for n, a in enumerate(tr["alts"]) if a not in tr["alts"][:n]]      # deliveries per policy; mostly they agree
+    variants = placer.variants(pfc_unit_class(tr), f["k"]) if f["k"] in ("err1", "err2") else [()]
+    res = []
+    for bits in variants:
+        lines, exps = pfc_packets(rnd, tr, alts, bits)
+        res.append((lines, exps, "R pfc %x %d" % (PFC_PGNO, PFC_STREAM), "pfc"))
+    return res
 
 
 def pfc_eq(e, g):
@@ -186,37 +254,50 @@ def pfc_eq(e, g):
                                     and y.get("pgno") == PFC_PGNO and y.get("stream") == PFC_STREAM for x, y in zip(e, g))
 
 
-def replay_set(ctx, drv, reset, comp, label, keyfn):
-    chunks = [list(range(k, len(comp), 16)) for k in range(16)]
+def idl_eq(e, g):
+    return len(e) == len(g) and all(x["n"] == y["n"] and x["flags"] == y["flags"] and x["bytes"] == y["bytes"] for x, y in zip(e, g))
+
+
+# ------------------------------------------------------------------------------------------------ replay
+def compare(exps, got, eq):
+    """the real demultiplexer must follow ONE of the accepted reference outcomes from the first packet to the last.
+    -> None or (packet index, expected of the outcomes still possible, got)"""
+    alive = list(range(len(exps)))
+    for n in range(len(exps[0])):
+        if n >= len(got):
+            return n, [exps[a][n] for a in alive], None
+        nxt = [a for a in alive if eq(exps[a][n], got[n]["d"])]
+        if not nxt:
+            return n, [exps[a][n] for a in alive], got[n]["d"]
+        alive = nxt
+    return None
+
+
+def replay_set(ctx, drv, comp, label, eq):
+    chunks = [list(range(k, len(comp), WORKERS)) for k in range(WORKERS)]
 
     def job(idx):
-        return (idx, core.run_seq_driver([drv], [[reset] + comp[i][0] for i in idx], env=build.san_env(), own_reset=True)) if idx else (idx, [])
-    for idx, res in core.pmap(job, chunks):
+        return (idx, core.run_seq_driver([drv], [[comp[i][2]] + comp[i][0] for i in idx], env=build.san_env(), own_reset=True)) if idx else (idx, [])
+    for idx, res in core.pmap(job, chunks, workers=WORKERS):
         for j, i in enumerate(idx):
             r = res[j]
-            lines, exp = comp[i][0], comp[i][1]
+            lines, exps, reset, tag = comp[i]
             if r.get("skipped"):
                 continue
-            rp = dict(reset=reset, script=lines, expected=exp, kind=label)
-            ctx.count_case(lines, nontrivial=any(e for e in exp))
+            rp = dict(reset=reset, script=lines, expected=exps, kind=label)
+            ctx.count_case(lines, nontrivial=any(e for e in exps[0]))
             nsan = core.report_sanitizers(ctx, r["stderr"], replay=rp, in_scope=bool(r["crashed"])) if r["stderr"] else 0
-            bad = None
-            for n, e in enumerate(exp):
-                if n >= len(r["lines"]):
-                    bad = (n, "driver stopped"); break
-                g = r["lines"][n]["d"]
-                if not keyfn(e, g):
-                    bad = (n, "spec predicts %s, real demultiplexer delivered %s" % (e, g)); break
+            bad = compare(exps, r["lines"], eq)
             if bad is None:
                 ctx.validated()
             elif not (r["crashed"] and nsan):
-                n = bad[0]
-                e = exp[n] if n < len(exp) else None
-                g = r["lines"][n]["d"] if n < len(r["lines"]) else None
-                ctx.violate("replay", "diverge:%s:%s" % (label, classify(e, g)), "packet %d: %s" % (n + 1, bad[1]), rp)
+                n, e, g = bad
+                ctx.violate("replay", "diverge:%s:%s" % (label, classify(e[0], g)),
+                            "%s, packet %d: the specification predicts %s, the real demultiplexer delivered %s" % (
+                                tag, n + 1, " or ".join(str(x) for x in e), "nothing (driver stopped)" if g is None else g), rp)
     if comp:
         m = len(comp) // 2
-        ctx.sample(dict(source=label, packets=[l[:30] + "..." for l in comp[m][0][:6]], expected=comp[m][1][:6]))
+        ctx.sample(dict(source=comp[m][3], reset=comp[m][2], packets=[l[:30] + "..." for l in comp[m][0][:6]], expected=comp[m][1][0][:6]))
 
 
 def classify(e, g):
@@ -232,34 +313,66 @@ def classify(e, g):
     return "other"
 
 
-def idl_eq(e, g):
-    return len(e) == len(g) and all(x["n"] == y["n"] and x["flags"] == y["flags"] and x["bytes"] == y["bytes"] for x, y in zip(e, g))
+def mc(ctx, module, cfg, label, workers=WORKERS, **kw):
+    r = tlc.run(module, cfg, workers=workers, **kw)
+    ctx.add_mc(r, label)
+    if r.violation:
+        ctx.violate("mc", "mc:%s:%s" % (r.violation["kind"], r.violation["name"]), r.violation["text"][:3000])
+    return r
 
 
 def run(ctx):
     quick = ctx.tier == "quick"
-    ctx.cov["rule"] = ("cases = packet sequences generated from the IdlA / Pfc models, encoded with real coding and replayed; distinct by the "
-                       "encoded packet bytes; non-trivial = at least one delivery is predicted")
-    ctx.assumptions += ["IDL repeat indicator packets are out of scope", "dummy bytes occur only inside user data"]
+    ctx.cov["rule"] = ("cases = packet sequences generated from the IdlA / Pfc models, encoded with real coding, every unit fault placed on "
+                       "concrete bits, and replayed; distinct by the encoded packet bytes; non-trivial = at least one delivery is predicted")
+    ctx.assumptions += ["IDL repeat indicator byte present with value 0 only (no repetitions)",
+                        "an RI/CI byte 0x00/0xFF directly in front of user data starting with the same value is not sent (EN 300 708 6.5.7.1 "
+                        "not available: one run or not is left open); DL counts dummy bytes",
+                        "one fault per PFC transmission"]
     drv = build.build_driver("drv_idlpfc")
     rnd = random.Random(ctx.seed)
-    r = tlc.run("IdlA", "MC_IdlA", timeout=900, coverage=not quick, heap="8g")
-    ctx.add_mc(r, "MC_IdlA")
-    if r.violation:
-        ctx.violate("mc", "mc:%s:%s" % (r.violation["kind"], r.violation["name"]), r.violation["text"][:3000])
-    g = tlc.run("Gen_IdlA", "Gen_IdlA_q" if quick else "Gen_IdlA", timeout=900, collect_tr=True, heap="12g", sample_tr=(8, ctx.seed) if quick else (3, ctx.seed))      # a uniform sample, not a BFS prefix
-    ctx.add_mc(g, "GEN IdlA")
-    behs = g.tr
-    comp = [compile_idl(rnd, b) for b in behs]
-    replay_set(ctx, drv, "R idl %x %d" % (CHANNEL, ADDRESS), comp, "idl", idl_eq)
-    r = tlc.run("Pfc", "MC_Pfc_q" if quick else "MC_Pfc_t", timeout=2400, heap="16g")
-    ctx.add_mc(r, "MC_Pfc")
-    if r.violation:
-        ctx.violate("mc", "mc:%s:%s" % (r.violation["kind"], r.violation["name"]), r.violation["text"][:3000])
-    g = tlc.run("Gen_Pfc", "Gen_Pfc_q" if quick else "Gen_Pfc_t", timeout=2400, collect_tr=True, heap="16g", max_tr=None if quick else 300000)
-    ctx.add_mc(g, "GEN Pfc")
-    comp = [pfc_packets(rnd, t) for t in g.tr]
-    replay_set(ctx, drv, "R pfc %x %d" % (PFC_PGNO, PFC_STREAM), comp, "pfc", pfc_eq)
+    placer = Placer(quick, rnd)
+    half = WORKERS // 2
+    # the exhaustive runs (properties of the models) go on beside the generator runs and the replay: 4 + 4 TLC workers
+    side_err = []
+
+    def side():
+        try:
+            mc(ctx, "Pfc", "MC_Pfc_q" if quick else "MC_Pfc_t", "MC_Pfc", workers=half, timeout=2400, heap="8g")
+            if not quick:
+                mc(ctx, "Pfc", "MC_Pfc_t4", "MC_Pfc 4 blocks", workers=half, timeout=2400, heap="8g")
+                mc(ctx, "Pfc", "MC_Pfc_eq", "MC_Pfc Step = Leap", workers=half, timeout=2400, heap="8g")
+            mc(ctx, "IdlA", "MC_IdlA_q" if quick else "MC_IdlA", "MC_IdlA", workers=half, timeout=2400, coverage=not quick, heap="8g")
+        except BaseException as ex:
+            side_err.append(ex)
+    th = threading.Thread(target=side, daemon=True)
+    th.start()
+    try:
+        # ---- IDL
+        comp = []
+        for cfg, label in ((("Gen_IdlA_q", "GEN IdlA"),) if quick else (("Gen_IdlA_c", "GEN IdlA continuity"), ("Gen_IdlA", "GEN IdlA units, payloads"))):
+            g = mc(ctx, "Gen_IdlA", cfg, label, workers=half, timeout=2400, collect_tr=True, heap="8g")
+            for b in g.tr:
+                comp += compile_idl(rnd, b, placer)
+        replay_set(ctx, drv, comp, "idl", idl_eq)
+        # ---- PFC
+        comp = []
+        for cfg, label in ((("Gen_Pfc_q", "GEN Pfc alignments"), ("Gen_Pfc_uq", "GEN Pfc units")) if quick else
+                           (("Gen_Pfc_t", "GEN Pfc alignments"), ("Gen_Pfc_ut", "GEN Pfc units"))):
+            # thorough: TLC checks every transmission of the alignment model, every second one is replayed (a uniform sample;
+            # the outcomes of all policies are inside one behaviour)
+            g = mc(ctx, "Gen_Pfc", cfg, label, workers=half, timeout=2400, collect_tr=True, heap="8g",
+                   sample_tr=(2, ctx.seed) if cfg == "Gen_Pfc_t" else None)
+            for tr in g.tr:
+                comp += compile_pfc(rnd, tr, placer)
+        replay_set(ctx, drv, comp, "pfc", pfc_eq)
+    finally:
+        th.join()
+    if side_err:
+        raise side_err[0]
+    ctx.cov["mc_runs"].sort(key=lambda r: (not r["run"].startswith("MC"), r["run"]))
+    ctx.cov["checker_cmd"] = ctx.cov["mc_runs"][0]["cmd"]
+    ctx.cov["unit_fault_placements"] = placer.report()
     ctx.cov["exhaustive"] = True
 
 
@@ -270,9 +383,11 @@ def replay(ctx, rp):
     if res["stderr"]:
         core.report_sanitizers(ctx, res["stderr"], replay=r, in_scope=True)
     eq = idl_eq if r.get("kind") == "idl" else pfc_eq
-    for n, e in enumerate(r["expected"]):
+    exps = r["expected"]
+    for n in range(len(exps[0])):
         g = res["lines"][n]["d"] if n < len(res["lines"]) else None
-        print(e, "<-spec | real->", g)
-        if (g is None or not eq(e, g)) and not ctx.violations:
-            ctx.violate("replay", rp["key"], "packet %d: spec %s real %s" % (n + 1, e, g), r)
-
+        print(" | ".join(str(e[n]) for e in exps), "<-spec | real->", g)
+    bad = compare(exps, res["lines"], eq)
+    if bad is not None and not ctx.violations:
+        n, e, g = bad
+        ctx.violate("replay", rp["key"], "packet %d: spec %s real %s" % (n + 1, e, g), r)
